@@ -87,6 +87,21 @@ class Prog:
                                         #   method = {"name", "oneway", "args": [(id, fname, Ty)], "ret": Ty|None, "throws": [(id, fname, Ty)]}
         self.scopes = {}                # (file,name) -> {"prefix": [("lit", s)|("var", name)], "ops": [(opname, Ty)]}
         self.genopts = ""               # extra `-gen go:` options for this program (e.g. "slim")
+        self.defaults = {}              # (file,name) -> {field id: value tree}: IDL default values (`= 5`)
+
+    def dflt(self, key, fid):
+        """the IDL default of field `fid` of struct-like `key` (None = none)."""
+        return self.defaults.get(key, {}).get(fid)
+
+    def cmp_dflt(self, key, fid):
+        """the default that the emitted IsSet<F>() compares with: the field is optional (or a union's) and its
+        default is of base / enum / string / binary type (a NON-pointer Go field); None otherwise."""
+        kind, fields = self.structs[key]
+        dv = self.dflt(key, fid)
+        if dv is None or dv[0] not in "bngq": return None
+        for (i, req, _, _) in fields:
+            if i == fid: return dv if (req == "o" or kind == "u") else None
+        return None
 
     def resolve(self, t):
         n = 0
@@ -101,7 +116,10 @@ class Prog:
         for (f, n), t in self.typedefs.items(): items.append("t%s/%s=%s" % (f, n, t.code()))
         for (f, n), vals in self.enums.items(): items.append("e%s/%s=%s" % (f, n, ",".join(str(v) for v in vals)))
         for (f, n), (kind, fields) in self.structs.items():
-            items.append("r%s%s/%s(%s)" % (kind, f, n, ";".join("%d,%s,%s,%s" % (i, r, fn, t.code()) for (i, r, fn, t) in fields)))
+            def fitem(i, r, fn, t):
+                dv = self.dflt((f, n), i)     # 5th item: the default, value syntax with `:` for `;`
+                return "%d,%s,%s,%s" % (i, r, fn, t.code()) + ("" if dv is None else "," + dump_val(dv).replace(";", ":"))
+            items.append("r%s%s/%s(%s)" % (kind, f, n, ";".join(fitem(*fl) for fl in fields)))
         # synthetic args/result structs of service methods (what the generator emits for them):
         # args fields are written unconditionally (default requiredness), result fields are optional
         for (f, n), svc in self.services.items():
@@ -110,6 +128,24 @@ class Prog:
                 res = ([(0, "success", m["ret"])] if m["ret"] is not None else []) + list(m["throws"])
                 items.append("rs%s/%s_%s_result(%s)" % (f, n, m["name"], ";".join("%d,o,%s,%s" % (i, fn, t.code()) for (i, fn, t) in res)))
         return "|".join(items) if items else "-"
+
+    def idl_const(self, cur, t, v):
+        """IDL spelling of constant `v` of type `t` (enum values by name, deterministically by value parity)."""
+        t = self.resolve(t)
+        k, x = v
+        if t.k == "b": return "true" if x else "false"
+        if t.k in "yhil": return str(x)
+        if t.k == "E":
+            vals = self.enums[(t.file, t.name)]
+            if x in vals and x % 3 != 2:
+                nm = "%s.V%s%d" % (t.name, t.name, vals.index(x))
+                return nm if t.file == cur else "%s.%s" % (t.file, nm)
+            return str(x)
+        if t.k == "d": return repr(struct.unpack(">d", struct.pack(">Q", x))[0])
+        if t.k in "sx": return '"%s"' % x.decode()
+        if t.k in "LZ": return "[" + ", ".join(self.idl_const(cur, t.a, i) for i in x) + "]"
+        if t.k == "M": return "{" + ", ".join("%s: %s" % (self.idl_const(cur, t.a, a), self.idl_const(cur, t.b, b)) for a, b in x) + "}"
+        raise ValueError(t.k)
 
     def all_methods(self, key):
         """methods of a service including inherited ones (parent first)."""
@@ -148,14 +184,15 @@ class Prog:
                 lines = []
                 for (i, r, fn, t) in fields:
                     mod = {"r": "required ", "o": "optional ", "d": ""}[r] if k != "u" else ""
-                    lines.append("  %d: %s%s %s" % (i, mod, t.idl(file), fn))
+                    dv = self.dflt((file, name), i)
+                    lines.append("  %d: %s%s %s%s" % (i, mod, t.idl(file), fn, "" if dv is None else " = " + self.idl_const(file, t, dv)))
                 out.append("%s %s {\n%s\n}" % (kw, name, ",\n".join(lines)))
         return "\n".join(out) + "\n"
 
 
 WORDS = ["Alpha", "Beta", "Gamma", "Delta", "Omega", "Sigma", "Kappa", "Theta", "Zeta", "Iota", "Lambda", "Rho"]
 
-def gen_prog(r, pid, services=False, scopes=False):
+def gen_prog(r, pid, services=False, scopes=False, defaults=True):
     p = Prog(pid)
     nfiles = r.pick([1, 1, 2, 2, 3])
     files = ["p%di%d" % (pid, i) for i in range(nfiles - 1)] + ["p%dmain" % pid]
@@ -228,6 +265,13 @@ def gen_prog(r, pid, services=False, scopes=False):
                     fields.append((fid, req, "f%s%d" % (r.pick(WORDS).lower(), fid), gen_ty(3)))
                 p.structs[(f, n)] = (kind, fields)
                 p.order[f].append(("r", n))
+                if defaults:
+                    dm = {}
+                    for (i, req, fn, t) in fields:
+                        if r.chance(35):
+                            dv = gen_default(r, p, t)
+                            if dv is not None: dm[i] = dv
+                    if dm: p.defaults[(f, n)] = dm
         def arg_ty():
             return gen_ty(2)
         if services:
@@ -284,6 +328,37 @@ def gen_bytes(r, text):
     if text: return "".join(r.pick(["a", "b", "Z", "0", " ", "é", "日", "_"]) for _ in range(n)).encode()
     return bytes(r.intn(256) for _ in range(n))
 
+DEFAULT_DOUBLES = [0.0, 1.5, -2.25, 100.0, 0.125]
+
+def gen_default(r, p, t, inner=False):
+    """an IDL default value for a field of type t, or None for the types that get none here: struct-likes
+    (the Go generator emits struct constants with known defects, see KNOWN_FINDINGS C11), containers with
+    binary / enum / struct / nested-container elements."""
+    t = p.resolve(t)
+    k = t.k
+    if k == "b": return ("b", r.chance(50))
+    if k in "yhil": return ("n", r.pick([0, 1, 5, -3, 100]))
+    if k == "d": return ("g", struct.unpack(">Q", struct.pack(">d", r.pick(DEFAULT_DOUBLES)))[0])
+    if k == "s": return ("q", r.pick([b"", b"hi", b"a b", b"Z_0"]))
+    if inner: return None
+    if k == "E": return ("n", r.pick(p.enums[(t.file, t.name)]))
+    if k == "x": return ("q", r.pick([b"", b"ab", b"xyz"]))
+    if k in "LZ":
+        items = {}
+        for _ in range(r.pick([0, 1, 2])):
+            v = gen_default(r, p, t.a, True)
+            if v is None: return None
+            items[dump_val(v)] = v
+        return ("[", list(items.values()))
+    if k == "M":
+        items = {}
+        for _ in range(r.pick([0, 1, 2])):
+            a, b = gen_default(r, p, t.a, True), gen_default(r, p, t.b, True)
+            if a is None or b is None: return None
+            items[dump_val(a)] = (a, b)
+        return ("{", list(items.values()))
+    return None
+
 def gen_val(r, p, t, depth=0):
     t = p.resolve(t)
     k = t.k
@@ -331,13 +406,71 @@ def gen_struct(r, p, key, depth=0):
     fv = {}
     if kind == "u":
         if fields:
-            (i, _, _, t) = r.pick(fields); fv[i] = gen_val(r, p, t, depth)
+            (i, _, _, t) = r.pick(fields)
+            fv[i] = gen_set_val(r, p, key, i, t, depth)
     else:
         for (i, req, _, t) in fields:
             if req in "rd" or (depth < 4 and r.chance(60)):
                 if depth >= 6 and p.resolve(t).k == "S" and req == "o": continue
+                cd = p.cmp_dflt(key, i)
+                if cd is not None and r.chance(25):
+                    # exactly the default, listed explicitly: the Go field then holds its default and
+                    # IsSet<F>() is false — expected on the wire and in dumps as UNSET
+                    fv[i] = cd; Stat("dflt:optional-value-equals-default")
+                    continue
                 fv[i] = gen_val(r, p, t, depth)
+                if cd is not None: Stat("dflt:optional-value-differs" if fv[i] != cd else "dflt:optional-value-equals-default")
     return ("(", fv)
+
+def gen_set_val(r, p, key, i, t, depth=0):
+    """a value of field i that the emitted IsSet<F>() calls set: different from the compared default.
+    (A union field HOLDING its default cannot be carried by the emitted Go type: the union then has no
+    field set — KNOWN_FINDINGS C02 go-union-default-field.)"""
+    cd = p.cmp_dflt(key, i)
+    v = gen_val(r, p, t, depth)
+    for _ in range(20):
+        if cd is None or v != cd: break
+        v = gen_val(r, p, t, depth)
+    if cd is not None and v == cd: v = flip_scalar(v)
+    return v
+
+def flip_scalar(v):
+    k, x = v
+    if k == "b": return ("b", not x)
+    if k == "n": return ("n", x + 1 if x < 100 else x - 1)
+    if k == "g": return ("g", x ^ 0x0010000000000000)
+    return ("q", x + b"a")
+
+def is_unset_default(p, key, i, x):
+    """field i of struct-like key, listed with value x[i]: does the emitted IsSet<F>() say "unset"?"""
+    cd = p.cmp_dflt(key, i)
+    return cd is not None and x[i] == cd
+
+def omit_defaulted(r, p, t, v, prob=50):
+    """(v_stream, v_expect): v_stream = v without some default-requiredness fields that have an IDL default
+    (at any depth) — a conforming stream of a peer that did not send them; v_expect = what the reader must
+    hold: those fields with their declared defaults."""
+    t = p.resolve(t)
+    k, x = v
+    if t.k in "LZ":
+        prs = [omit_defaulted(r, p, t.a, i, prob) for i in x]
+        return ("[", [a for a, _ in prs]), ("[", [b for _, b in prs])
+    if t.k == "M":
+        ks = [omit_defaulted(r, p, t.a, a, prob) for a, _ in x]; vs = [omit_defaulted(r, p, t.b, b, prob) for _, b in x]
+        return ("{", [(a[0], b[0]) for a, b in zip(ks, vs)]), ("{", [(a[1], b[1]) for a, b in zip(ks, vs)])
+    if t.k == "S":
+        key = (t.file, t.name)
+        kind, fields = p.structs[key]
+        vs, ve = {}, {}
+        for (i, req, _, ty) in fields:
+            if i not in x: continue
+            dv = p.dflt(key, i)
+            if req == "d" and kind != "u" and dv is not None and r.chance(prob):
+                ve[i] = dv; Stat("dflt:omitted-from-stream")
+                continue
+            vs[i], ve[i] = omit_defaulted(r, p, ty, x[i], prob)
+        return ("(", vs), ("(", ve)
+    return v, v
 
 def dump_val(v):
     """canonical value syntax (also what the runner prints after Read)."""
@@ -360,7 +493,9 @@ def canon_dump(p, t, v):
     if t.k == "S":
         kind, fields = p.structs[(t.file, t.name)]
         ft = {i: ty for (i, _, _, ty) in fields}
-        return "(" + "".join("%d=%s" % (i, canon_dump(p, ft[i], x[i])) for i in sorted(x)) + ")"
+        key = (t.file, t.name)
+        # a non-pointer optional field holding its default is UNSET (DESIGN §7 C02, value domain)
+        return "(" + "".join("%d=%s" % (i, canon_dump(p, ft[i], x[i])) for i in sorted(x) if not is_unset_default(p, key, i, x)) + ")"
     return dump_val(v)
 
 def tree(p, t, v):
@@ -379,7 +514,8 @@ def tree(p, t, v):
         kind, fields = p.structs[(t.file, t.name)]
         parts = []
         for (i, req, fn, ty) in sorted(fields):
-            if i in x: parts.append("%d:%s:%d=%s" % (i, fn, p.wire(ty), tree(p, ty, x[i])))
+            # optional iff set; set = IsSet<F>(): a non-pointer optional field holding its default is unset
+            if i in x and not is_unset_default(p, (t.file, t.name), i, x): parts.append("%d:%s:%d=%s" % (i, fn, p.wire(ty), tree(p, ty, x[i])))
         return "R(%s){%s}" % (t.name, ";".join(parts))
 
 def events(r, p, t, v, extra_unknown=False, drop=None, top=False):
